@@ -30,6 +30,13 @@ func init() {
 		if err := json.Unmarshal(raw, &c); err != nil {
 			return "unreadable case: " + err.Error()
 		}
+		if c.Embedded && len(c.EmbeddedRoot) > 0 {
+			restore, ok := mon.SwapEmbeddedRoot(c.EmbeddedRoot)
+			if !ok {
+				return "" // worker built without the hook: the case cannot be re-executed
+			}
+			defer restore()
+		}
 		out := mon.RunVerify(&c)
 		v := ref.Judge(&c)
 		return verdictProblem(&c, out, v)
@@ -64,6 +71,7 @@ func check(x *mon.Ctx, slot int, c *world.Case) (mon.Outcome, *ref.Verdict) {
 	if p := verdictProblem(c, out, v); p != "" {
 		x.Violation(c.Class, c.Param, p, "verify", c)
 	}
+	x.Twins.Offer(c, out)
 	if x.Shadow && out.Panic == "" && !c.ShadowSkip && (x.ShadowAll || c.TwinRef != nil) {
 		shadow(x, c, out)
 	}
